@@ -185,7 +185,10 @@ def multi_column_and_projections(col, scratch, st, ikind, comp):
         col.count("nontrivial")
         case = dict(case0, columns=list(proj))
         try:
-            rp = read_parquet(path, columns=list(proj))
+            arg = list(proj)
+            rp = read_parquet(path, columns=arg)
+            if arg != list(proj):
+                col.violation("projection.argument_modified", case, f"columns argument {list(proj)} was changed to {arg}")
         except Exception as ex:
             col.violation("projection.raises", case, f"{type(ex).__name__}: {str(ex)[:250]}")
             continue
@@ -241,6 +244,26 @@ def dask_roundtrip(col, scratch, kind, st, nparts, ikind, comp):
             col.violation("dask.projection", case, d)
     except Exception as ex:
         col.violation("dask.projection.raises", case, f"{type(ex).__name__}: {str(ex)[:250]}")
+    # second generation: the frame that was read is written again and read again (its divisions are unknown, its
+    # partitions come from files, not from from_pandas)
+    try:
+        path2 = path + ".gen2"
+        r.to_parquet(path2, compression=comp)
+        r2 = read_parquet_dask(path2).compute(scheduler="synchronous")
+        col.count("evaluations")
+        d = diff_sig(frame_sig(written), frame_sig(r2))
+        if d:
+            col.violation("dask.second_generation", case, d, index=ikind)
+        sel = r[r["v"] >= 6]
+        sel.to_parquet(path2, compression=comp, overwrite=True)
+        r3 = read_parquet_dask(path2).compute(scheduler="synchronous")
+        col.count("evaluations")
+        d = diff_sig(frame_sig(written[written["v"] >= 6]), frame_sig(r3))
+        if d:
+            col.violation("dask.second_generation_selection", case, d, index=ikind)
+        shutil.rmtree(path2, ignore_errors=True)
+    except Exception as ex:
+        col.violation("dask.second_generation.raises", case, f"{type(ex).__name__}: {str(ex)[:250]}")
     # the pandas reader on the multi-file dataset (one arrow chunk per file)
     try:
         from spatialpandas.io import read_parquet
